@@ -1,0 +1,19 @@
+/**
+ * @file core/verif.h
+ *
+ * @brief Hooks for deductive verification of the core
+ *
+ * When ROOT_SIM_CORE_VERIF is defined (only by an external verification harness), VERIF_LOOP(name) placed between a
+ * loop head and its body expands to the loop contract VERIF_LOOP_name supplied by that harness.
+ * In every normal build it expands to nothing.
+ *
+ * SPDX-FileCopyrightText: 2008-2022 HPDCS Group <rootsim@googlegroups.com>
+ * SPDX-License-Identifier: GPL-3.0-only
+ */
+#pragma once
+
+#ifdef ROOT_SIM_CORE_VERIF
+#define VERIF_LOOP(name) VERIF_LOOP_##name
+#else
+#define VERIF_LOOP(name)
+#endif
